@@ -17,3 +17,7 @@ def run(ctx):
                            "KeyCount back to baseline after 18 s), not proved: stage 1 of the model has no lazily freed records")
     ctx.cov["rule"] = ("seeded sequences ending in an adaptive drain; census of the real managers (holders, waiters) after every operation and at every reply; "
                        "distinct_nontrivial = distinct sequences containing at least one grant")
+
+
+def replay(path):
+    return engine_common.replay_engine("C17", path)
